@@ -74,7 +74,8 @@ class C35(Check):
     theorems = ("C35_buffer_step_conserves", "C35_buffer_history_conserves", "C35_buffer_bounded",
                 "C35_pop_best_is_max", "C35_pop_best_none_iff_empty", "C35_push_prio_keeps_best",
                 "C35_heap_insert", "C35_heap_remove", "C35_heap_split", "C35_heap_top_is_max",
-                "C35_heap_step", "C35_heap_history", "C35_hiBit")
+                "C35_heap_step", "C35_heap_history", "C35_hiBit", "C35_hiBit_is_the_code")
+    gen = ({"file": "parsec/maxheap.c", "fns": ["hiBit"], "out": "theories/Gen/Gen_hibit.v"},)
     comp = "heapbuf"
     extract_file = "theories/Extract/Extract_HeapBuf.v"
     extracted = ("heapbuf",)
